@@ -25,7 +25,7 @@ for pid, p in props.items():
     open(wt + '/_out/ALREADY_KNOWN.txt', 'w').write("\n".join(known) + "\n")
 tmpl = open('/verif/lib/agent_prompt.tmpl').read().replace('/tmp/wt/CXX', base + '/CXX')
 tmpl += '''
-IMPORTANT — other people already produced the mutations summarised in BASE/CXX/_out/ALREADY_KNOWN.txt (15 to 17 of them). Read that list and produce TWO mutations that are DIFFERENT in code site and mechanism from all of them and from each other. The obvious sites are taken; to find new ones, (1) list every function on every call path that contributes to the property (including helpers in util/, config handling, error conversion, Drop/Default/Clone impls, iterator adaptors, macro-generated code, serde settings structs and their defaults, the plugin loader, storage/mmap handling, anything in python/src and sudachi-cli/src when the property mentions those layers), (2) cross off those the known list touches, (3) look at what is left for a slip that the existing tests do not notice. Think also of: an option or argument combination nobody tests; a value that is legal but extreme; the second call of something; the last element; an early return that skips a later step; a default that changes; two plugins/features interacting; something done in one mode / tier / code path but not in its sibling; an error path that leaves state behind; an older file format or a deprecated entry point that still has to work. A mutation may need an unusual but legal configuration, dictionary shape or API sequence to show. Do NOT produce trivial variations of known mutations. Your final answer may have up to 14 lines.
+IMPORTANT — other people already produced the mutations summarised in BASE/CXX/_out/ALREADY_KNOWN.txt (about 18 of them). Read that list and produce TWO mutations that are DIFFERENT in code site and mechanism from all of them and from each other. The obvious sites are taken; to find new ones, (1) list every function on every call path that contributes to the property (including helpers in util/, config handling, error conversion, Drop/Default/Clone impls, iterator adaptors, macro-generated code, serde settings structs and their defaults, the plugin loader, storage/mmap handling, anything in python/src and sudachi-cli/src when the property mentions those layers), (2) cross off those the known list touches, (3) look at what is left for a slip that the existing tests do not notice. Think also of: an option or argument combination nobody tests; a value that is legal but extreme; the second call of something; the last element; an early return that skips a later step; a default that changes; two plugins/features interacting; something done in one mode / tier / code path but not in its sibling; an error path that leaves state behind; an older file format or a deprecated entry point that still has to work. A mutation may need an unusual but legal configuration, dictionary shape or API sequence to show. Do NOT produce trivial variations of known mutations. Your final answer may have up to 14 lines.
 '''.replace('BASE', base)
 for pid in props:
     open('%s/prompt-%s.txt' % (base, pid), 'w').write(tmpl.replace('CXX', pid))
